@@ -98,3 +98,57 @@ def hostile_values(rng, dt, n, finite_only=True):
     r = random_bits(rng, dt, n, inf=not finite_only)
     m = (rng.choice([-1.0, 1.0], size=n) * 2.0 ** rng.uniform(-12, 12, size=n)).astype(f.dt)
     return numpy.select([c == 0, c == 1, c == 2], [a, b, r], m).astype(f.dt)
+
+
+def short_mantissa(rng, dt, n, bits):
+    """values with at most `bits` significant bits, exponents anywhere (products of two such hit ties and exact cases)"""
+    f = fmt(dt)
+    m = rng.integers(1 << (bits - 1), 1 << bits, size=n).astype(numpy.float64)
+    e = rng.integers(f.emin - f.p + 1, f.emax - bits + 1, size=n)
+    s = rng.choice([-1.0, 1.0], size=n)
+    with numpy.errstate(all="ignore"):
+        v = numpy.ldexp(s * m, e)
+    return v.astype(f.dt)
+
+
+def hostile_pairs(rng, dt, n, finite_only=True):
+    """relation generators for pairs: independent hostile values; exponent gaps {0,1,p-1,p,p+1,2p}; near cancellation y=-x+-k ulp;
+    tie constructors (y = +-half ulp of x, +- tiny); short mantissas (product ties); |x| == |y|; scale extremes"""
+    f = fmt(dt)
+    p = f.p
+    x = hostile_values(rng, dt, n, finite_only=finite_only)
+    y = hostile_values(rng, dt, n, finite_only=finite_only)
+    c = rng.integers(0, 8, size=n)
+    ox = ordinal_arr(x)
+    maxo = f.inf_bits - 1
+    with numpy.errstate(all="ignore"):
+        # 1: exponent gap
+        gap = rng.choice([0, 1, 2, p - 2, p - 1, p, p + 1, p + 2, 2 * p, 2 * p + 1], size=n)
+        mant = random_bits(rng, dt, n, inf=False)
+        m, _ = numpy.frexp(mant.astype(numpy.float64))
+        _, ex = numpy.frexp(x.astype(numpy.float64))
+        y1 = numpy.ldexp(m, ex - gap).astype(f.dt)
+        # 2: near cancellation
+        k = rng.integers(-4, 5, size=n)
+        y2 = -from_ordinal_arr(dt, numpy.clip(ox + k, -maxo, maxo))
+        # 3: tie constructor: y = +-(half ulp of x) (+- much smaller)
+        half = numpy.ldexp(numpy.float64(1), numpy.maximum(ex - 1 - p, f.emin - p + 1)).astype(f.dt)
+        tiny = numpy.where(rng.random(n) < 0.5, 0, half * f.type(2.0 ** -int(p - 1))).astype(f.dt)
+        y3 = (rng.choice([-1.0, 1.0], size=n).astype(f.dt) * half + rng.choice([-1.0, 0.0, 1.0], size=n).astype(f.dt) * tiny).astype(f.dt)
+        # 4/5: short mantissas
+        bits = int(rng.integers(2, p // 2 + 3))
+        x4 = short_mantissa(rng, dt, n, bits)
+        y4 = short_mantissa(rng, dt, n, int(rng.integers(2, p // 2 + 3)))
+        # 6: equal magnitude
+        y6 = (rng.choice([-1.0, 1.0], size=n).astype(f.dt) * x).astype(f.dt)
+        # 7: product near under/overflow: y ~ limit / x
+        lim = numpy.where(rng.random(n) < 0.5, float(numpy.finfo(dt).max), float(numpy.finfo(dt).smallest_normal)) * 2.0 ** rng.uniform(-3, 3, size=n)
+        y7 = (lim / x.astype(numpy.float64)).astype(f.dt)
+    X = numpy.select([c == 4, c == 5], [x4, x4], x).astype(f.dt)
+    Y = numpy.select([c == 1, c == 2, c == 3, c == 4, c == 5, c == 6, c == 7], [y1, y2, y3, y4, y4, y6, y7], y).astype(f.dt)
+    bad = numpy.isnan(X) | numpy.isnan(Y)
+    if finite_only:
+        bad |= ~numpy.isfinite(X) | ~numpy.isfinite(Y)
+    X[bad] = f.type(1.5)
+    Y[bad] = f.type(-0.75)
+    return X, Y, c
